@@ -214,6 +214,87 @@ Proof.
   intros Hz Hr. apply readd_removed_refused; auto. now rewrite (proj2 (recover_ids c ms rs (m_id m))).
 Qed.
 
+(** ---- snapshot round trips ---- *)
+From Coq Require Import Permutation.
+Lemma minsert_perm x l : Permutation (minsert x l) (x :: l).
+Proof.
+  induction l as [|y tl IH]; cbn; [reflexivity|]. destruct (m_name x <=? m_name y); [reflexivity|].
+  rewrite IH. apply perm_swap.
+Qed.
+Lemma msort_perm l : Permutation (msort l) l.
+Proof. induction l as [|x tl IH]; cbn; [constructor|]. rewrite minsert_perm. now constructor. Qed.
+Lemma msort_exist l id : is_exist (msort l) id = is_exist l id.
+Proof.
+  destruct (is_exist (msort l) id) eqn:A, (is_exist l id) eqn:B; auto.
+  - apply is_exist_in in A. apply in_map_iff in A. destruct A as (x & Hx & Hin). apply (proj1 (msort_in _ _)) in Hin.
+    assert (G : is_exist l id = true) by (apply is_exist_in; apply in_map_iff; exists x; split; auto). congruence.
+  - apply is_exist_in in B. apply in_map_iff in B. destruct B as (x & Hx & Hin).
+    assert (G : is_exist (msort l) id = true) by (apply is_exist_in; apply in_map_iff; exists x; split; auto; now apply msort_in). congruence.
+Qed.
+(** the snapshot lists every member of the id-indexed maps exactly once: same multiset, hence
+    |array| = |MapByID| and the same ids *)
+Theorem snapshot_members_complete c :
+  Permutation (fst (snapshot_data c)) (fst c) /\ Permutation (snd (snapshot_data c)) (snd c) /\
+  length (fst (snapshot_data c)) = length (fst c) /\ length (snd (snapshot_data c)) = length (snd c) /\
+  forall id, is_exist (snd (snapshot_data c)) id = is_exist (snd c) id.
+Proof.
+  unfold snapshot_data; cbn [fst snd]. repeat split; try apply msort_perm;
+    try (apply Permutation_length, msort_perm). intros id. apply msort_exist.
+Qed.
+
+Definition srun (init : members) (st : cluster * cluster) (l : list sreq) : cluster * cluster :=
+  fold_left (sstep init) l st.
+Lemma sstep_removed init st r id :
+  is_exist (snd (fst st)) id = true -> is_exist (snd (fst (sstep init st r))) id = true.
+Proof.
+  destruct st as [c lag]. intros H. destruct r as [q| |mode]; cbn [sstep fst snd] in *; auto.
+  - now apply removed_stays_removed.
+  - rewrite (proj2 (recover_ids _ _ _ id)). cbn. now rewrite msort_exist.
+Qed.
+Lemma sstep_disjoint init st r : disjoint_ids (fst st) -> disjoint_ids (fst (sstep init st r)).
+Proof.
+  destruct st as [c lag]. intros H. destruct r as [q| |mode]; cbn [sstep fst snd] in *; auto.
+  - now apply removed_never_member_again.
+  - intros x Hx. rewrite (proj2 (recover_ids _ _ _ (m_id x))).
+    assert (E : is_exist (fst (recover (restart_target init lag mode) (fst (snapshot_data c)) (snd (snapshot_data c)))) (m_id x) = true)
+      by (apply is_exist_in; apply in_map_iff; exists x; split; auto).
+    rewrite (proj1 (recover_ids _ _ _ (m_id x))) in E. cbn in *. rewrite msort_exist in *.
+    apply is_exist_in in E. apply in_map_iff in E. destruct E as (y & Hy & Hin). rewrite <- Hy. now apply H.
+Qed.
+(** Over any sequence of validated changes, marks and snapshot round trips (restart into the
+    initial configuration, into an empty cluster, or a lagging follower installing the snapshot)
+    an id that was removed stays removed, is never an applied member again, and any change
+    naming it is refused. *)
+Theorem removed_never_member_again_through_snapshots init l : forall st id,
+  disjoint_ids (fst st) -> is_exist (snd (fst st)) id = true ->
+  let c' := fst (srun init st l) in
+  is_exist (snd c') id = true /\ is_exist (fst c') id = false /\
+  forall t m, m_id m = id -> id <> 0 -> validate_change_membership (fst c') (snd c') t (Some m) = VAlreadyRemoved.
+Proof.
+  unfold srun. induction l as [|r tl IH]; intros st id D H; cbn [fold_left].
+  - cbn zeta. split; [exact H|]. split.
+    + destruct (is_exist (fst (fst st)) id) eqn:E; auto. apply is_exist_in in E. apply in_map_iff in E.
+      destruct E as (y & Hy & Hin). apply D in Hin. rewrite Hy in Hin. congruence.
+    + intros t m Hm Hz. subst id. now apply readd_removed_refused.
+  - apply IH; [now apply sstep_disjoint|now apply sstep_removed].
+Qed.
+
+(** the history of the name re-use: 3 is removed, its name, address and peer id are used again
+    by 13, 13 is removed too.  The snapshot lists both; a list built from a name index (a later
+    member replaces an earlier one with the same name) would have lost 3. *)
+Fixpoint name_index (l : members) : members :=
+  match l with
+  | [] => []
+  | x :: tl => if existsb (fun y => m_name y =? m_name x) tl then name_index tl else x :: name_index tl
+  end.
+Example ex_name_reuse :
+  let c := fold_left apply_req [RAdd (mk_member 1 1 1 1 true); RAdd (mk_member 3 3 3 3 true); RRemove (mk_member 3 0 0 0 true);
+                                RAdd (mk_member 13 3 3 3 true); RRemove (mk_member 13 0 0 0 true)] ([], []) in
+  disjoint_ids c /\ map m_id (snd c) = [3; 13] /\ dup_names (snd c) = true /\
+  map m_id (snd (snapshot_data c)) = [3; 13] /\ map m_id (name_index (snd c)) = [13] /\
+  map m_id (snd (fst (srun [] (c, c) [SRestart 1]))) = [3; 13].
+Proof. vm_compute. repeat split; auto. intros x [<-|[]]. reflexivity. Qed.
+
 (** ---- satisfiable hypotheses ---- *)
 Example ex_replay :
   match wrun wal_empty (WIdent (1, 2, 3, 4) :: ex_history ++ [WSnap (2, 3, 9)]) with
